@@ -104,6 +104,15 @@ func (c *Ctx) Mine() bool {
 // Expired reports that the internal deadline has passed; the run then ends with
 // exhaustive=false.
 func (c *Ctx) Expired() bool {
+	// enough evidence: any violation already decides the check, and violating cases
+	// (hangs in particular) can be very slow
+	if c.Rep.ViolCount >= 40 {
+		if c.Rep.Exhaustive {
+			c.Rep.Exhaustive = false
+			c.Note("stopped after %d violations in this shard; remaining states not explored", c.Rep.ViolCount)
+		}
+		return true
+	}
 	if time.Now().After(c.deadline) {
 		if c.Rep.Exhaustive {
 			c.Rep.Exhaustive = false
